@@ -325,6 +325,24 @@ class Sym:
             self._poly[key] = p
         return p
 
+    def uniq(self, local, desc):
+        """In `unique_locals` mode (panic-obligation engine) two different locals with the same canonical description
+        get different names, so that a fact about one is never applied to the other; the table-comparison packs keep
+        the purely descriptive names."""
+        if not getattr(self, "unique_locals", False):
+            return desc
+        if desc.startswith(("mut(<impl [T]>::iter(", "mut(Iterator::", "mut(IntoIterator::into_iter(", "mut(<impl str>::chars(", "mut(<impl [T]>::chunks_exact(")):
+            # iterator temporaries: named after their source; guards on their results are matched by call site
+            # (oblig.rule_unwrap), not by name
+            return desc
+        if not hasattr(self, "_uniq"):
+            self._uniq = {}
+        ls = self._uniq.setdefault(desc, [])
+        if local not in ls:
+            ls.append(local)
+        k = ls.index(local)
+        return desc if k == 0 else "%s#%d" % (desc, k + 1)
+
     def loop_sym(self, local, init):
         """symbol of a loop-carried local: `loop(init)`; two different locals with the same initial value must not
         share a symbol (facts about one would be applied to the other), so later ones are numbered `loop#2(init)`"""
@@ -809,7 +827,7 @@ class Sym:
                 while src[0] in ("ref", "deref"):
                     src = src[1]
                 if src[0] == "mut":
-                    nm = "len(%s)" % self.mut_name(src)
+                    nm = "len(%s)" % self.uniq(src[1], self.mut_name(src))
                     self.sym_box.setdefault(nm, (0, (1 << 63) - 1))
                     return Poly.sym(nm)
             return None
@@ -847,9 +865,9 @@ class Sym:
         if k == "index":
             return "%s[%s]" % (self.name(t[1]), self.arg_name(t[2]))
         if k == "var":
-            return "var<%s>" % self.short_ty(self.an.body.locals[t[1]]["ty"])
+            return self.uniq(t[1], "var<%s>" % self.short_ty(self.an.body.locals[t[1]]["ty"]))
         if k == "mut":
-            return self.mut_name(t)
+            return self.uniq(t[1], self.mut_name(t))
         if k == "aggr" and t[1].startswith("closure:"):
             ci = closure_info(self.prog, self.an, t)
             if ci:
@@ -1008,7 +1026,7 @@ class Sym:
                 some = (rel == "in" and vs == [1]) or (rel == "notin" and vs == [0])
                 none = (rel == "in" and vs == [0]) or (rel == "notin" and vs == [1])
                 if some or none:
-                    return [("some" if some else "none", self.name(inner))]
+                    return [("some" if some else "none", self.name(inner), inner)]
             if tyname and (tyname.startswith("std::result::Result") or tyname.startswith("core::result::Result")):
                 ok = (rel == "in" and vs == [0]) or (rel == "notin" and vs == [1])
                 er = (rel == "in" and vs == [1]) or (rel == "notin" and vs == [0])
@@ -1147,7 +1165,7 @@ class Sym:
             inner = strip(d[2][0])
             if s_.startswith("Option"):
                 some = s_.endswith("is_some") == tr
-                return [("some" if some else "none", self.name(inner))]
+                return [("some" if some else "none", self.name(inner), inner)]
             ok = s_.endswith("is_ok") == tr
             return [("ok" if ok else "err", self.name(inner), inner)]
         if d[0] == "call":
@@ -1433,7 +1451,7 @@ def atom_key(a):
     """hashable/printable key of an atom (drops the Poly object)"""
     if a[0] == "rel":
         return ("rel", a[1])
-    if a[0] in ("ok", "err") and len(a) > 2:
+    if a[0] in ("ok", "err", "some", "none") and len(a) > 2:
         return (a[0], a[1])
     return a
 
